@@ -392,6 +392,7 @@ fn random(rest: &[String]) -> i32 {
     let total: u64 = mix.iter().sum();
     let mut tag: i16 = 0;
     let mut counts = [0u64; 7];
+    let mut last_payload: std::collections::HashMap<usize, (i64, u8, i16, i64)> = Default::default();
     while r.events < budget {
         if r.tt.is_none() {
             counts[6] += 1;
@@ -409,16 +410,20 @@ fn random(rest: &[String]) -> i32 {
         }
         let op = match which {
             0 => {
-                tag = if tag >= 30000 { 1 } else { tag + 1 };
-                let from = rng.below(64) as i64;
-                let to = (from + 1 + rng.below(63) as i64) % 64;
-                let mv = if rng.below(3) == 0 { -1 } else { from + 64 * to + 32768 * (rng.below(2) as i64) };
-                Op::Insert {
-                    k: 1 + rng.below(np as u64) as usize,
-                    bound: rng.below(3) as i64,
-                    depth: rng.below(maxdepth + 1) as u8,
-                    tag,
-                    mv,
+                let k = 1 + rng.below(np as u64) as usize;
+                // now and then the very same result is stored again for a key (a later search that finds what the earlier
+                // one found): what is stored must carry the age of the search that stored it last
+                if rng.below(5) == 0 && last_payload.contains_key(&k) {
+                    let (bound, depth, t, mv) = last_payload[&k];
+                    Op::Insert { k, bound, depth, tag: t, mv }
+                } else {
+                    tag = if tag >= 30000 { 1 } else { tag + 1 };
+                    let from = rng.below(64) as i64;
+                    let to = (from + 1 + rng.below(63) as i64) % 64;
+                    let mv = if rng.below(3) == 0 { -1 } else { from + 64 * to + 32768 * (rng.below(2) as i64) };
+                    let (bound, depth) = (rng.below(3) as i64, rng.below(maxdepth + 1) as u8);
+                    last_payload.insert(k, (bound, depth, tag, mv));
+                    Op::Insert { k, bound, depth, tag, mv }
                 }
             }
             1 => Op::Probe(1 + rng.below(np as u64) as usize),
